@@ -397,6 +397,20 @@ def check_lexer(chk, F, emitted_ops):
     chk.sample({"lexer": "256 opcodes, %d VERIFY pairs, push classes" % len(spec.LEX)})
 
 
+def check_sizes_shared(chk, F):
+    """R04.1 + R04.2 for use by other properties (C09 relies on script_size in every limit and weight)"""
+    P = scriptmodel.paths(F)
+    toks = check_templates(chk, F, P)
+    toks17 = {}
+    for v in NARY:
+        res, m = scriptmodel.run_encode(F, v, n=17, P=P)
+        good = [scriptmodel.nf_tokens(r) for c, r in res if not (isinstance(r, tuple) and r and r[0] == "panic")]
+        if len(good) == 1:
+            toks17[v] = good[0]
+    check_script_size(chk, F, P, {3: toks, 17: toks17})
+    check_num_size(chk, F)
+
+
 def run(chk):
     F = chk.facts()
     chk.explanation = (
